@@ -1,0 +1,8 @@
+//go:build !verif
+
+package window
+
+import "github.com/rulego/streamsql/types"
+
+// slotStartMs is only meaningful with the verif build tag.
+func slotStartMs(*types.TimeSlot) int64 { return 0 }
